@@ -24,7 +24,8 @@ ASSUMPTIONS = ["exec stub as described", "_start_patches/_stop_patches run untra
 
 def obligations(tier):
     w = "after run/call/evaluate returns or raises: sys.stdout, time.sleep, sys.modules keys as before; _current_patches == [] == _current_stdout"
-    obs = [Ob("C05.restore1", F, "restore1", 600, what=w + " (also when pedal's own feedback construction fails)"),
+    obs = [Ob("C05.restore1", F, "restore1", 600, part=str(e), what=w + " (also when pedal's own feedback construction fails or the program closed its stdout)") for e in range(3)]
+    obs += [
            Ob("C05.restore_reach", F, "restore_reach", 120, expect="refute", what="twin: a BaseException termination propagates out of run()")]
     w2 = w + "; the following normal execution captures exactly its own text"
     if tier == "quick":
